@@ -1,6 +1,7 @@
 package symgo
 
 import (
+	"go/token"
 	"math/rand"
 	"fmt"
 	"golang.org/x/tools/go/ssa"
@@ -167,6 +168,47 @@ func (e *engine) decide(c *Term) bool {
 }
 
 // concretize turns a symbolic integer into a concrete one by forking over its feasible values.
+// concretizeIn is concretize for an index/bound that must lie in [lo,hi]: it first decides
+// whether the symbolic value is inside; outside raises the Go runtime error (on that path),
+// inside enumerates the (few) feasible values.
+func concretizeIn(v value, lo, hi int64, what string) value {
+	s, ok := v.(*sym)
+	if !ok {
+		return v
+	}
+	t := types.Typ[s.K]
+	i64 := types.Typ[types.Int64]
+	var inside value
+	if _, signed := kindWidth(s.K); signed {
+		x := conv(i64, t, v)
+		inside = andVal(binop(token.GEQ, i64, x, lo), binop(token.LEQ, i64, x, hi))
+	} else {
+		u64 := types.Typ[types.Uint64]
+		x := conv(u64, t, v)
+		inside = andVal(binop(token.GEQ, u64, x, uint64(lo)), binop(token.LEQ, u64, x, uint64(hi)))
+	}
+	if !decideBool(nil, inside) {
+		panic(runtimeError(what + " out of range"))
+	}
+	return concretize(v)
+}
+
+func andVal(a, b value) value {
+	if x, ok := a.(bool); ok {
+		if !x {
+			return false
+		}
+		return b
+	}
+	if y, ok := b.(bool); ok {
+		if !y {
+			return false
+		}
+		return a
+	}
+	return mkVal(types.Bool, And(a.(*sym).T, b.(*sym).T))
+}
+
 func concretize(v value) value {
 	s, ok := v.(*sym)
 	if !ok {
@@ -189,10 +231,10 @@ func concretize(v value) value {
 		return toVal(d.Val)
 	}
 	e.pos++
-	// enumerate feasible values (cap 64)
+	// enumerate feasible values (cap 256)
 	var vals []int64
 	excl := []*Term{}
-	for len(vals) < 65 {
+	for len(vals) < 257 {
 		res, model := e.sol.check(append(append([]*Term{}, e.pc...), excl...), []*Term{s.T})
 		if res == "unsat" {
 			break
@@ -212,8 +254,8 @@ func concretize(v value) value {
 	if len(vals) == 0 {
 		panic(abortPath{"infeasible path (concretize)"})
 	}
-	if len(vals) > 64 {
-		panic(unsupported("symbolic index with more than 64 feasible values"))
+	if len(vals) > 256 {
+		panic(unsupported("symbolic index with more than 256 feasible values"))
 	}
 	sort.Slice(vals, func(i, j int) bool { return vals[i] < vals[j] })
 	for _, n := range vals[1:] {
@@ -460,6 +502,11 @@ func (e *engine) runPath(call1 func()) {
 				case unsupportedErr:
 					e.aborted++
 					e.unsup[r.msg+panicWhere()]++
+				case exitPanic:
+					func() {
+						defer func() { recover() }()
+						e.violate("process-exit@"+panicFunc(), fmt.Sprintf("os.Exit(%d)", int(r)))
+					}()
 				case targetPanic:
 					func() {
 						defer func() { recover() }()
@@ -502,7 +549,17 @@ func panicWhere() string {
 	if len(callStack) == 0 {
 		return ""
 	}
-	return " in " + strings.ReplaceAll(callStack[len(callStack)-1].String(), modPath+"/", "")
+	r := " in " + strings.ReplaceAll(callStack[len(callStack)-1].String(), modPath+"/", "")
+	// nearest callers that belong to the module under test (helps to see what needs a stub)
+	n := 0
+	for i := len(callStack) - 2; i >= 0 && n < 2; i-- {
+		nm := callStack[i].String()
+		if strings.Contains(nm, modPath) {
+			r += " <- " + strings.ReplaceAll(nm, modPath+"/", "")
+			n++
+		}
+	}
+	return r
 }
 
 // maybeConformance keeps a reservoir sample of completed paths; for a kept path the solver
